@@ -18,7 +18,8 @@ def main():
     home = os.environ["HOME"]
     crash = os.environ.get("VERIF_CRASH", "")
     k, phase = (int(crash.split(":")[0]), crash.split(":")[1]) if crash else (None, None)
-    fsint.install(os.path.join(home, ".sse"), k, phase, os.environ.get("VERIF_FSLOG"))
+    fsint.install(os.path.join(home, ".sse"), k, phase, os.environ.get("VERIF_FSLOG"),
+                  buffered=os.environ.get("VERIF_FS_BUFFERED") == "1")
     repo = os.environ.get("VERIF_REPO", "/repo")
     if repo not in sys.path:
         sys.path.insert(0, repo)
